@@ -781,6 +781,166 @@ def _run(chk, K, h, model, quick, hasan=None):
         r.add(cid, cmds, post)
         truns.append(r)
 
+    # ================================================================ regular-expression SIZE: every site of _yr_re_emit that narrows a code
+    # distance to 16 bits, at the largest accepted and the smallest rejected size of the sub-expression (byte-exact: classes are
+    # 34 bytes of code, literals 2, `.` 1).  The expected verdict is the MODEL's (Model/ReEmit.emit_fits: every stored offset fits
+    # its field), found by evaluating the model over a window of sizes; accepted expressions must also match what they should.
+    TL = K["ERROR_REGULAR_EXPRESSION_TOO_LARGE"]
+    RMAX = K["RE_MAX_RANGE"]
+
+    def E_of(T):
+        """sub-expression with exactly T bytes of code: (regex text, a member, model s-expression)"""
+        n = T // 34
+        r_ = T - 34 * n
+        if r_ < 2:
+            n, r_ = n - 1, r_ + 34
+        j, dots = r_ // 2, r_ % 2
+        return ("[ab]" * n + "c" * j + "." * dots, "a" * n + "c" * j + "x" * dots,
+                "( cat ( rep %d cls ) %s )" % (n, "( cat ( rep %d lit ) any )" % j if dots else "( rep %d lit )" % j))
+
+    FAMS = [  # name, regex with %s, model AST with %s, members of the language to plant (M = a member of E), a non-member
+        ("alt_first", "k(%s|xyz)q", "( cat lit ( cat ( alt %s ( rep 3 lit ) ) lit ) )", ["kMq", "kxyzq"], "kxq"),
+        ("alt_second", "k(xyz|%s)q", "( cat lit ( cat ( alt ( rep 3 lit ) %s ) lit ) )", ["kxyzq", "kMq"], "kxq"),
+        ("star", "k(%s)*q", "( cat lit ( cat ( star %s ) lit ) )", ["kq", "kMq"], "kxq"),
+        ("plus", "k(%s)+q", "( cat lit ( cat ( plus %s ) lit ) )", ["kMq"], "kq"),
+        ("opt", "k(%s)?q", "( cat lit ( cat ( range 0 1 %s ) lit ) )", ["kq", "kMq"], "kxq"),
+        ("range_1_2", "k(%s){1,2}q", "( cat lit ( cat ( range 1 2 %s ) lit ) )", ["kMq"], "kq"),
+        ("range_1_unbounded", "k(%s){1,}q", "( cat lit ( cat ( range 1 " + str(RMAX) + " %s ) lit ) )", ["kMq"], "kq"),
+    ]
+    if not quick:
+        FAMS += [("star_ungreedy", "k(%s)*?q", "( cat lit ( cat ( star %s ) lit ) )", ["kq", "kMq"], "kxq"),
+                 ("plus_ungreedy", "k(%s)+?q", "( cat lit ( cat ( plus %s ) lit ) )", ["kMq"], "kq"),
+                 ("range_0_3", "k(%s){0,3}q", "( cat lit ( cat ( range 0 3 %s ) lit ) )", ["kq", "kMq"], "kxq"),
+                 ("alt_in_alt", "k((%s|xyz)|w)q", "( cat lit ( cat ( alt ( alt %s ( rep 3 lit ) ) lit ) lit ) )", ["kMq", "kxyzq", "kwq"], "kxq")]
+    WIN = list(range(32700, 32800))
+    mqs = ["reemit " + ast % E_of(T)[2] for _, _, ast, _, _ in FAMS for T in WIN]
+    mout, _ = vlib.run_lines(model, mqs, timeout=600)
+    resize_bound = {}
+
+    def expect_hash(matches):
+        sm = 0
+        for off, ln in matches:
+            sm = (sm * 1000003 + off * 31 + ln) & ((1 << 64) - 1)
+        return "%x" % sm
+
+    def resize_case(kind, cid, rule_src, buf, want_accept, want_matches, mline, nt):
+        cmds = ["newcompiler", "add " + R(rule_src), "getrules", "buf " + hx(buf), "scan 0 0 0", "destroy", "smoke"]
+
+        def post(lines, ans):
+            count("resize", nt + (want_accept,))
+            if not usable(cid, cmds, lines, "resize"):
+                return
+            errors, last, msgs, codes = compile_result(lines)
+            accepted = errors == 0
+            if accepted != want_accept:
+                viol("corr:resize", "%s: implementation %s, the model (every split/jump offset must fit 16 bits) says %s [%s]"
+                     % (cid, "accepts" if accepted else "rejects with %s" % msgs[:1], "accept" if want_accept else "reject", mline), cid, cmds, lines, kind=kind)
+            elif not accepted and (TL not in codes or not any("too large" in m_ for m_ in msgs)):
+                viol("undocumented:resize", "%s: rejected, but not with ERROR_REGULAR_EXPRESSION_TOO_LARGE: codes %s %s" % (cid, codes, msgs[:1]), cid, cmds, lines)
+            elif accepted:
+                sc = scans(lines)
+                st_ = sc[0]["rules"].get("a", ("", {}))[1].get("$a") if sc and sc[0].get("rc") == 0 else None
+                exp = {"cnt": len(want_matches), "first": want_matches[0][0], "last": want_matches[-1][0], "sum": expect_hash(want_matches)} if want_matches else {}
+                if st_ is None or any(st_[k_] != v_ for k_, v_ in exp.items()):
+                    viol("corr:resize-scan", "%s: the largest accepted expression compiles but does not match what it must: got %s, expected matches (offset, length) %s"
+                         % (cid, {k_: st_[k_] for k_ in exp} if st_ else (sc[0]["raw"][:80] if sc else None), want_matches), cid, cmds, lines, kind=kind)
+                else:
+                    stats["agree"] += 1
+            else:
+                stats["agree"] += 1
+        main.add(cid, cmds, post)
+
+    for fi, (name, rx_, ast, plants, nonmember) in enumerate(FAMS):
+        verdict = {}
+        for ti, T in enumerate(WIN):
+            ml = mout[fi * len(WIN) + ti] if fi * len(WIN) + ti < len(mout) else ""
+            mm_ = re.match(r"size=(\d+) fits=(\w+) ok=(\w+) wf=(\w+)", ml)
+            if not mm_ or mm_.group(4) != "true":
+                chk.violation("model", "model runner does not answer reemit: %r" % ml[:100], {}, found_input=False)
+                break
+            verdict[T] = (mm_.group(2) == "true", ml)
+            if mm_.group(2) != mm_.group(3):
+                chk.violation("model:resize", "%s, size(e) = %d: the distance tests regenerated from re.c decide %s, the 16-bit fields need %s (limit_exact_re_size)"
+                              % (name, T, mm_.group(3), mm_.group(2)), {"model": ml, "family": name}, found_input=False)
+                break
+        acc = [T for T in WIN if verdict.get(T, (False,))[0]]
+        if not verdict or not acc or len(acc) == len(WIN) or acc != list(range(WIN[0], acc[-1] + 1)):
+            chk.violation("model:resize", "%s: no single boundary inside the window of sizes %d..%d" % (name, WIN[0], WIN[-1]), {"family": name}, found_input=False)
+            continue
+        Tb = acc[-1]
+        resize_bound[name] = Tb
+        for T in [Tb - 1, Tb, Tb + 1, Tb + 300] + ([2 * Tb] if quick and fi % 3 == 0 or not quick else []):
+            text, member, east = E_of(T)
+            buf, want = b"##", []
+            for pl in plants:
+                w_ = pl.replace("M", member).encode()
+                want.append((len(buf), len(w_)))
+                buf += w_ + b"##"
+            buf += nonmember.encode() + b"##"
+            wa = verdict[T][0] if T in verdict else False
+            resize_case(name, "resize_%s_%d" % (name, T), "rule a { strings: $a = /%s/ condition: $a }" % (rx_ % text), buf, wa, want,
+                        verdict[T][1] if T in verdict else "beyond the window: reject", (name, T - Tb if abs(T - Tb) <= 1 else "far"))
+    # hex strings with alternatives: the same ALT emit site through the hex parser (a byte is 2 bytes of code).  A hex string this
+    # long never matches its long branch (matching is bounded); the short second branch is reached through the split offset under test
+    hq = {}
+    for n in range(16370, 16390):
+        hq[n] = "reemit ( cat lit ( cat ( alt ( rep %d lit ) ( rep 2 lit ) ) lit ) )" % n
+    hout, _ = vlib.run_lines(model, [hq[n] for n in sorted(hq)], timeout=300)
+    hver = {n: l.startswith("size=") and " fits=true" in l for n, l in zip(sorted(hq), hout)}
+    hacc = [n for n in sorted(hver) if hver[n]]
+    if hacc and len(hacc) < len(hver):
+        nb = hacc[-1]
+        resize_bound["hex_alt_first"] = 2 * nb
+        for n in (nb - 1, nb, nb + 1, nb + 200):
+            buf = b"##K" + b"A" * n + b"Q##KXYQ##KXQ"
+            resize_case("hex_alt_first", "resize_hex_%d" % n, "rule a { strings: $a = { 4B ( %s| 58 59 ) 51 } condition: $a }" % ("41 " * n), buf,
+                        hver.get(n, False), [(n + 6, 4)], hout[sorted(hq).index(n)] if n in hq else "beyond the window", ("hex", n - nb if abs(n - nb) <= 1 else "far"))
+    else:
+        chk.violation("model:resize", "hex alternative: no boundary in 16370..16389", {}, found_input=False)
+    # base64: the three encodings become ((A|B)|C); the outer first branch holds two of them
+    import base64 as _b64
+
+    def b64_alts(sb):
+        """lengths and leading trims of the three alternatives yara searches for (plaintext preceded by 0, 1, 2 unknown bytes)"""
+        out_ = []
+        for i_ in range(3):
+            enc = _b64.b64encode(b"\0" * i_ + sb)
+            lead = [0, 2, 3][i_]
+            trail = [0, 3, 2][(len(sb) + i_) % 3]
+            out_.append((len(enc) - lead - trail, lead))
+        return out_
+
+    def b64_plain(n):
+        return ("Qz7" * (n // 3 + 1))[:n]
+    bwin = list(range(6100, 6180))
+    bqs = []
+    for n in bwin:
+        (la, _), (lb, _), (lc, _) = b64_alts(b64_plain(n).encode())
+        bqs.append("reemit ( alt ( alt ( rep %d lit ) ( rep %d lit ) ) ( rep %d lit ) )" % (la, lb, lc))
+    bout, _ = vlib.run_lines(model, bqs, timeout=300)
+    bver = {n: " fits=true" in l for n, l in zip(bwin, bout)}
+    bacc = [n for n in bwin if bver[n]]
+    brej = [n for n in bwin if not bver[n]]
+    if bacc and brej:
+        resize_bound["base64_outer_alt"] = bacc[-1]
+        pick = sorted(set([bacc[-1] - 1, bacc[-1], brej[0], brej[0] + 1, brej[-1]] + [n for n in bwin if min(brej) - 3 <= n <= max(bacc) + 3][:8]))
+        for n in pick:
+            if n not in bver:
+                continue
+            sb = b64_plain(n).encode()
+            buf, want = b"##", []
+            for i_ in range(3):
+                enc = _b64.b64encode(bytes([33 + i_]) * i_ + sb + b"!!!")       # followed by other bytes: only the trimmed part is fixed
+                ln, lead = b64_alts(sb)[i_]
+                want.append((len(buf) + lead, ln))
+                buf += enc + b"##"
+            # matches are bounded by YR_RE_SCAN_LIMIT bytes: alternatives of 8 KB can never match, so only the verdict and a clean scan are checked
+            resize_case("base64", "resize_b64_%d" % n, 'rule a { strings: $a = "%s" base64 condition: $a }' % sb.decode(), buf, bver[n], None,
+                        bout[bwin.index(n)], ("b64", n % 3, bver[n]))
+    else:
+        chk.violation("model:resize", "base64: no boundary in the window", {}, found_input=False)
+    chk.note(re_size_boundaries_bytes_of_code=resize_bound)
+
     # ================================================================ evaluation stack: every setting around the exact need of a rule,
     # the deepest point reached inside each kind of iterator, in the ASan build (a store one slot past the stack buffer is a
     # heap-buffer-overflow report).  Per (rule, stack size): the scan succeeds with the verdicts of the default stack size, or
